@@ -638,6 +638,10 @@ func check(id, tier string, workers int, wallOverride float64) int {
 			hf := filepath.Join(scratch, fmt.Sprintf("hashes.%d", i))
 			args := []string{"-world", cfg.World, "-prop", id, "-seed", strconv.FormatUint(seed, 10),
 				"-from", strconv.Itoa(from), "-to", strconv.Itoa(from + 99_000_000), "-wall", fmt.Sprintf("%.1f", wall), "-hashes", hf}
+			if tier == "thorough" && i%2 == 1 {
+				// half of the thorough workers explore wider bounds
+				args = append(args, "-deep")
+			}
 			so, se, code, err := runWorker(worker, args, time.Duration(wall*float64(time.Second))+150*time.Second)
 			r := workerResult{stderr: se, code: code, err: err, from: from}
 			if err == nil && (code == 0 || code == 3) {
